@@ -108,11 +108,75 @@ def p6(ctx, rid):
         ctx.ok(rid, 'walk-ignores-markers|scan', '', '%d functions of the on-disk index, none inspects deletion markers' % n, queries=n)
 
 
+def p7(ctx, rid):
+    """the pass that writes a layer of tree nodes and the pass that builds the parent layer over it split the layer identically:
+    collect_next_layer_nodes and shift_all_and_write are handed the same (min, max) node amounts, computed once by their common
+    caller, and neither derives an amount of its own (no division inside them).  When the two passes disagree - e.g. on the
+    rounding of `half full` for an odd fan-out - the parent's pointers and separator keys describe nodes that are not in the file."""
+    prog = ctx.prog
+    names = ('collect_next_layer_nodes', 'shift_all_and_write')
+    callees = {}
+    for f in prog.fns.values():
+        if f.file == 'src/blob/index/bptree/serializer.rs' and f.id == prog.fns[f.id].root and f.id.split('::')[-1] in names:
+            callees[f.id.split('::')[-1]] = f
+    if len(callees) < 2:
+        raise core.AnchorLost('layer passes of the serializer: %s' % sorted(callees))
+    key = 'layer-passes-share-amounts'
+    # (a) no own division
+    for nm, g in sorted(callees.items()):
+        for gid in prog.family(g.id):
+            for b in prog.fns[gid].blocks:
+                for st in b['s']:
+                    if st['k'] == 'a' and st['r']['k'] == 'bin' and st['r']['op'] in ('Div', 'Shr', 'Rem'):
+                        ctx.bad(rid, key, prog.fns[gid].where(), '`%s` derives a node amount of its own (a division inside the pass) instead of using the amounts its caller computed for both passes' % nm)
+                        return
+    # (b) same argument values at the call sites
+    sites = {}
+    for f in prog.fns.values():
+        if f.file != 'src/blob/index/bptree/serializer.rs':
+            continue
+        for c in f.calls:
+            for nm, g in callees.items():
+                if g.id in prog.resolve(c) and c.bb in f.reachable():
+                    sites.setdefault(f.id, {})[nm] = c
+    ok = False
+    for fid, d in sites.items():
+        if len(d) < 2:
+            continue
+        f = prog.fns[fid]
+
+        def amounts(c):
+            out = set()
+            for a in c.args:
+                l = op_local(a)
+                if l is None:
+                    continue
+                ty = f.locals[l]['s']
+                if ty in ('(usize, usize)', 'usize'):
+                    for o in core.origins(f, a):
+                        if o.kind == 'agg':
+                            for op in o.data['ops']:
+                                out |= {x.key() for x in core.origins(f, op)}
+                        else:
+                            out.add(o.key())
+            return out
+        a1, a2 = amounts(d[names[0]]), amounts(d[names[1]])
+        if a1 and a1 == a2:
+            ok = True
+            ctx.ok(rid, key, d[names[0]].where(), 'both passes receive the amounts computed once in %s' % fid.split('::')[-1])
+        else:
+            ctx.bad(rid, key, d[names[0]].where(), 'the two passes over a tree layer are handed different node amounts (%d vs %d origins): they split the layer differently and the parent layer points at nodes that are not where it says' % (len(a1), len(a2)))
+            return
+    if not ok:
+        raise core.AnchorLost('common caller of the two layer passes')
+
+
 RULES = [
     Rule('C09.P1', 'keys are ordered through the key type, never as raw byte strings, in the index code (C04.T10 instances)', p1, 4),
     Rule('C09.P2', 'cursors over the on-disk leaf region move by whole record headers (C04.T12 instances)', p2, 4),
     Rule('C09.P3', 'the loaders return the record count stored in the index header (C15.A1 instances)', p3, 2),
     Rule('C09.P4', 'serializer, loader and all-versions search share the per-key order convention (newest first on disk)', p4, 1),
     Rule('C09.P6', 'the on-disk index walks return every version of a key: no deletion-marker test in the b+tree code', p6, 1),
+    Rule('C09.P7', 'the writing pass and the parent-building pass of the tree serializer share one (min, max) amount computation', p7, 1),
     Rule('C09.P5', 'the on-disk latest-version lookup takes the leftmost header of the key', p5, 1),
 ]
